@@ -40,11 +40,19 @@ def _run_task_worker(arg):
         mod = importlib.import_module(modname)
         ov = None
         if overrides:
-            ov = {f: (lambda s, a=a, b=b: s.replace(a, b, 1)) for f, a, b in overrides}
+            ov = {}
+            for f in {o[0] for o in overrides}:
+                reps = [(a, b) for f2, a, b in overrides if f2 == f]
+
+                def apply(s, reps=reps):
+                    for a, b in reps:
+                        s = s.replace(a, b, 1)
+                    return s
+                ov[f] = apply
         repo = Repo(overrides=ov)
         tasks = mod.tasks(tier)
         t = tasks[idx]
-        r = run_task(t, repo)
+        r = run_task(t, repo, stop_on_refuted=bool(overrides))
         d = dict(r.__dict__)
         return d
     except Exception:
@@ -235,6 +243,7 @@ def check_property(prop, tier, seed, replay=None):
 
     # ---- canaries (engine soundness guard)
     canary_report = {"run": 0, "refuted": 0, "skipped": 0, "surviving": []}
+    todo = []
     for can in mod.canaries(tier) if hasattr(mod, "canaries") else []:
         desc, overrides, only = can
         # skip if the mutated text is not present in the current tree (someone edited that line)
@@ -248,14 +257,18 @@ def check_property(prop, tier, seed, replay=None):
         if not applicable:
             canary_report["skipped"] += 1
             continue
-        rs = run_tasks(modname, tier, overrides=overrides, only=only)
-        canary_report["run"] += 1
-        hit = any(o["status"] == "refuted" for r in rs for o in r["obligs"]) or \
-            any(r.get("errors") for r in rs) and False
-        if hit:
-            canary_report["refuted"] += 1
-        else:
-            canary_report["surviving"].append(desc)
+        todo.append(can)
+    if todo:
+        import concurrent.futures as _cf
+        with _cf.ThreadPoolExecutor(max_workers=min(6, len(todo))) as tp:       # each canary runs its tasks in its own process pool
+            results = list(tp.map(lambda c: run_tasks(modname, tier, overrides=c[1], only=c[2]), todo))
+        for (desc, overrides, only), rs in zip(todo, results):
+            canary_report["run"] += 1
+            hit = any(o["status"] == "refuted" for r in rs for o in r["obligs"])
+            if hit:
+                canary_report["refuted"] += 1
+            else:
+                canary_report["surviving"].append(desc)
     # a surviving canary on a tree where the un-mutated proof goes through means the engine lost its teeth
     if canary_report["surviving"] and not degraded and not refuted:
         checker_errors.append(("canaries", "surviving: " + "; ".join(canary_report["surviving"])))
